@@ -7,6 +7,10 @@
 (*   await2 --Open(any, unrel)--> closed      the session shuts its muxer down                                    *)
 (*   loop   --Open(t, r)-->       loop        dispatch by (type, reliability) to a handler goroutine, or the tube *)
 (*                                            is closed at once when no handler exists for it                     *)
+(* Before the loop the session authorizes the peer (checkAuthorization): the FIRST tube must be a reliable         *)
+(* user-authorization tube carrying a user name the server admits the peer's key for; anything else ends the     *)
+(* session's life before it began (phase rejected: the loop never runs).  A behaviour starts either in `auth`    *)
+(* (the peer is hostile from its first tube) or in `loop` (it authorized properly first).                        *)
 (* Handlers run beside the loop and never block it.  `crashed` is the state a failed type assertion would lead to *)
 (* (SecondByType = TRUE models a loop that identifies the second execution tube by its type byte only).           *)
 (* TLC checks NoCrash and emits every behaviour with the phase reached; the driver opens the same tubes against   *)
@@ -21,12 +25,12 @@ Handler(t, r) == CASE r = "rel" /\ t = 2 -> "authgrant"
                    [] t = 6              -> "pfdata"       \* reliable or unreliable
                    [] r = "rel" /\ t = 7 -> "winsize"
                    [] OTHER              -> "none"         \* the loop closes the tube
-VARIABLES phase, started, refused, hist
-vars == <<phase, started, refused, hist>>
-Init == phase = "loop" /\ started = <<>> /\ refused = 0 /\ hist = <<>>
+VARIABLES phase, started, refused, hist, pre
+vars == <<phase, started, refused, hist, pre>>
+Init == phase \in {"auth", "loop"} /\ started = <<>> /\ refused = 0 /\ hist = <<>> /\ pre = (phase = "auth")
 Open(t, r, a) ==
     /\ Len(hist) < MaxOpens /\ phase \in {"loop", "await2"}
-    /\ hist' = Append(hist, [t |-> t, r |-> r, a |-> a])
+    /\ hist' = Append(hist, [t |-> t, r |-> r, a |-> a]) /\ UNCHANGED pre
     /\ IF phase = "loop"
        THEN IF t = 1 /\ r = "rel"
             THEN phase' = "await2" /\ UNCHANGED <<started, refused>>
@@ -40,8 +44,19 @@ Open(t, r, a) ==
                       ELSE phase' = "crashed" /\ UNCHANGED <<started, refused>>
             ELSE IF r = "rel" THEN phase' = "loop" /\ started' = Append(started, "exec") /\ UNCHANGED refused
                  ELSE phase' = "closed" /\ UNCHANGED <<started, refused>>
-Next == \E t \in Types, r \in Rels, a \in Acts : Open(t, r, a)
+\* the first tube of a peer that did not authorize: a reliable user-authorization tube is read (an idle or garbled
+\* one keeps the reader waiting for the rest of the message, a closed one yields an empty name), anything else is
+\* rejected at once; the hostile peer never names a user its key is admitted for
+OpenPre(t, r, a) ==
+    /\ Len(hist) < MaxOpens /\ phase \in {"auth", "authwait", "rejected"}
+    /\ hist' = Append(hist, [t |-> t, r |-> r, a |-> a]) /\ UNCHANGED <<started, refused, pre>>
+    /\ IF phase = "auth"
+       THEN IF t = 4 /\ r = "rel"
+            THEN phase' \in (IF a = "close" THEN {"rejected"} ELSE IF a = "idle" THEN {"authwait"} ELSE {"authwait", "rejected"})
+            ELSE phase' = "rejected"
+       ELSE phase' = phase           \* nobody accepts further tubes: they stay in the muxer's queue
+Next == \E t \in Types, r \in Rels, a \in Acts : Open(t, r, a) \/ OpenPre(t, r, a)
 Spec == Init /\ [][Next]_vars
 NoCrash == phase # "crashed"
-Emit == hist = <<>> \/ PrintT(<<"SESS", ToJson([seq |-> hist, phase |-> phase])>>)
+Emit == hist = <<>> \/ PrintT(<<"SESS", ToJson([seq |-> hist, phase |-> phase, pre |-> pre])>>)
 =============================================================================
